@@ -2,7 +2,7 @@
 """Regenerates /verif/MANIFEST.json from the table below. Run after adding a check."""
 import json, subprocess
 
-HOOKS_COMMITS = ["4564ba4", "93a2b40"]
+HOOKS_COMMITS = ["4564ba4", "93a2b40", "7023b59", "76dec84"]
 
 E1 = "stateright 0.31 explicit-state BFS over the real DataRowIterator + scripted driver, lock-step reference interpreter"
 E2 = "own bounded-exhaustive enumerator (mixed-radix / unranked index spaces split over all cores) running the real public API against the reference model"
